@@ -8,6 +8,7 @@ from .. import paths
 from ..core import FUNC, call_attr, calls_in, const, dotted, is_const, kwarg, norm, text, walk_local
 
 EXPLANATION = [
+    "C12.truncation-bound: the value of a notification and of an indication is cut at exactly bearer.att_mtu - 3 (linear-form equality, through single-assignment locals): no other bound (such as the server's preferred MTU) shortens it.",
     'C12.mtu-fresh: in the async methods of gatt_client.Client no local copy of the ATT_MTU (self.mtu) taken before an await is used after it: the long-read threshold is the MTU current when the response arrives.',
     'C12.fanout-independent: Server._notify_or_indicate_subscribers starts one task per subscribed bearer and awaits them together; nothing is awaited inside a loop over the bearers.',
     'C12.integer-arithmetic: no true division in the anchored modules: sizes and budgets are integers (a fractional budget admits one entry too many).',
@@ -637,7 +638,37 @@ def mtu_fresh(ctx):
     R.check(n >= 2, rule, 'bumble.gatt_client.Client | methods reading the MTU', f'{n} async methods read self.mtu; no copy survives an await', f'only {n} methods found')
 
 
+def truncation_bound(ctx):
+    """"truncated only to ATT_MTU-3": the cut applied to a notification / indication value is exactly the bearer's current
+    ATT_MTU minus the 3 header bytes -- not a smaller bound derived from the server's own preferred MTU."""
+    R, p = ctx.r, ctx.p
+    rule = 'C12.truncation-bound'
+    from ..sym import lin, lin_eq
+    want = lin(ast.parse('bearer.att_mtu - 3', mode='eval').body)
+    n = 0
+    for name in ('_notify_single_subscriber', '_indicate_single_bearer'):
+        fn = p.find(f'bumble.gatt_server.Server.{name}')
+        if fn is None:
+            R.bad(rule, f'bumble.gatt_server.Server.{name}', 'anchor missing')
+            continue
+        defs = {}
+        for s_ in walk_local(fn):
+            if isinstance(s_, ast.Assign) and len(s_.targets) == 1 and isinstance(s_.targets[0], ast.Name):
+                defs.setdefault(s_.targets[0].id, []).append(s_.value)
+        cuts = [x for x in walk_local(fn) if isinstance(x, ast.Assign) and dotted(x.targets[0]) == 'value_as_bytes' and isinstance(x.value, ast.Subscript) and dotted(x.value.value) == 'value_as_bytes' and isinstance(x.value.slice, ast.Slice)]
+        for c in cuts:
+            n += 1
+            ub = c.value.slice.upper
+            for _ in range(2):
+                if isinstance(ub, ast.Name) and len(defs.get(ub.id, [])) == 1:
+                    ub = defs[ub.id][0]
+            ok = ub is not None and c.value.slice.lower is None and lin_eq(lin(ub), want)
+            R.check(ok, rule, f'bumble.gatt_server.Server.{name} | cut', 'value[: bearer.att_mtu - 3]', f'the value is cut at `{norm(ub) if ub is not None else None}`, not at the bearer\'s ATT_MTU - 3: on a bearer whose ATT_MTU is larger than the bound used (an enhanced bearer, an MTU negotiated by this device\'s client role) subscribers receive less than ATT_MTU-3 allows', p.loc(c))
+    R.check(n >= 2, rule, 'bumble.gatt_server.Server | truncation sites', f'{n} cuts', f'only {n} cuts found')
+
+
 RULES = [
+    ('C12.truncation-bound', truncation_bound),
     ('C12.mtu-fresh', mtu_fresh),
     ('C12.fanout-independent', fanout_independent),
     ('C12.integer-arithmetic', integer_arithmetic_rule),
